@@ -203,16 +203,11 @@ func ruleOneIdPerCall(c *Ctx, rule string) {
 	id := p.idValue(f)
 	reg := p.oneCall(f, "client.RpcMultiplexer.registerHandler", false)
 	c.check(rule, "CallUnaryMethod:register-id", p.sameValue(reg.Common().Args[1], id), "value registered is the atomic-add result", p.ipos(reg))
-	var unreg ssa.CallInstruction
-	for _, ci := range p.callsTo(f, "client.RpcMultiplexer.unregisterHandler", false) {
-		if _, ok := ci.(*ssa.Defer); ok {
-			unreg = ci
-		}
-	}
-	if unreg == nil {
+	dfr, unreg := p.deferredCallTo(f, "client.RpcMultiplexer.unregisterHandler")
+	if dfr == nil {
 		c.check(rule, "CallUnaryMethod:unregister-id", false, "no deferred unregisterHandler", p.pos(f.Pos()))
 	} else {
-		c.check(rule, "CallUnaryMethod:unregister-id", p.sameValue(unreg.Common().Args[1], id), "value unregistered by the deferred call is the atomic-add result", p.ipos(unreg))
+		c.check(rule, "CallUnaryMethod:unregister-id", p.sameValue(unreg.Common().Args[1], id), "value unregistered by the deferred call is the atomic-add result", p.ipos(dfr))
 	}
 	env := p.envelopeIn("client.RpcMultiplexer.CallUnaryMethod")
 	st := env.Fields["Id"].Stores
